@@ -327,16 +327,7 @@ Proof.
     apply m_ext. intros p' s' i' c'. unfold kguard. destruct (Nat.ltb (length s') n); reflexivity.
 Qed.
 
-(* expressions that always consume at least one rune *)
-Fixpoint consumes (e : rx) : bool :=
-  match e with
-  | RSet _ => true
-  | RCat a b => consumes a || consumes b
-  | RAlt a b => consumes a && consumes b
-  | RPlus _ a => consumes a
-  | RGroup _ a => consumes a
-  | _ => false
-  end.
+(* [consumes] (expressions that always consume at least one rune) is defined in Model_Regex *)
 
 Lemma m_lt {R} (e : rx) : consumes e = true ->
   forall n p s i c (k : @kont R), length s <= n -> m e p s i c k = m e p s i c (kguard n k).
